@@ -13,7 +13,7 @@ import itertools
 from vlib.mc import enum as E
 
 PROPERTY = 'C11'
-LEVEL = 'exploration'
+LEVEL = 'model_checking'
 ENGINE = 'C'
 TECHNIQUE = ('stateless bounded model checking: complete enumeration of strings from address grammars, '
              'three-way reference classification cross-checked with ipaddress')
